@@ -1763,6 +1763,7 @@ func (n *node) unregisterProcess(p *process, reason error) {
 	lib.VerifPoint(p.pid, "unreg:drained")
 	// drop the links and monitors this process created on other targets
 	n.targetManager.CleanupConsumer(p.pid)
+	lib.VerifPoint(p, "unregister:exit-signals-sent")
 
 	if p.application != system.Name {
 		// do not count system app processes
